@@ -53,3 +53,12 @@ Theorem C02_lookup_key_keeps_flags : forall r idx k k', length idx = length k ->
   map kv k' = map (fun v => nth (Z.to_nat v) r VNull) idx /\ Forall (fun v => v < Z.of_nat (length r)) idx.
 Proof. exact set_key_flags. Qed.
 Print Assumptions C02_lookup_key_keeps_flags.
+
+(* end to end (Model/E2E.v): IndexedSelect from the bytes of the file alone is C02_indexed_select's operation on
+   the schema record the file itself defines *)
+From SQ Require Import Model.Tokenizer Model.Schema Model.E2E Proofs.E2EP.
+Theorem C02_e2e_indexed_select : forall pg op n S cb table iname columns (s : S) ms st fl,
+  master pg op n = (fl, ms) -> (forall e, fl <> Fail e) -> db_schema ms table = Ok st ->
+  e_indexed_select pg op n S cb table iname columns s = h_indexed_select pg op n S cb (schema_of st) table iname columns s.
+Proof. exact e_indexed_select_is_h. Qed.
+Print Assumptions C02_e2e_indexed_select.
